@@ -6,7 +6,7 @@ import NasimModel.Props.C18
 
 `_validate_subnets`, `_validate_topology`, `_validate_os / _services / _processes`, `_is_valid_subnet_ID`,
 `_is_valid_host_address`, `_validate_scan_cost`, `_is_valid_firewall_setting`, `_contains_all_required_firewalls`,
-`_validate_firewall` and the step-limit test of `nasim/scenarios/loader.py`, translated
+`_validate_firewall`, `_validate_sensitive_hosts` and the step-limit test of `nasim/scenarios/loader.py`, translated
 from their source text over the YAML AST (`Generated/SrcLoad.lean`), accept exactly what the model's `subnetsOk`,
 `topologyOk`, `namesOk`, `validSubnetId`, `validHostAddr`, `scanCostOk`, `stepLimitOf` accept — so the C18 theorems
 about these rules (`C18_subnets`, `C18_topology`, `C18_names`, `C18_scan_cost`, `C18_step_limit`, the address tests
@@ -467,5 +467,211 @@ theorem Src_validate_firewall (topo : List (List Int)) (services : List Y) (m : 
       rw [List.all_map]; rfl
     rw [e]
     cases m.all (fun kv => fwSettingOk services kv.2) <;> rfl
+
+/-- no two elements related by `e` -/
+def noDupG {α : Type} (e : α → α → Bool) : List α → Bool
+  | [] => true
+  | x :: xs => !(xs.any (e x)) && noDupG e xs
+
+def dupPairG {α : Type} (e : α → α → Bool) (k : Nat) (l : List α) : Bool :=
+  ((List.range' k l.length).zip l).any fun p => ((List.range' k l.length).zip l).any fun q => p.1 != q.1 && e p.2 q.2
+
+theorem any_snd_zipG {α : Type} (k : Nat) (t : List α) (f : α → Bool) :
+    ((List.range' k t.length).zip t).any (fun q => f q.2) = t.any f := by
+  have : ((List.range' k t.length).zip t).map Prod.snd = t := by
+    rw [List.map_snd_zip]; simp
+  conv => rhs; rw [← this]
+  rw [List.any_map]
+  rfl
+
+theorem rangeZip_geG {α : Type} (k n : Nat) (l : List α) (p : Nat × α) (h : p ∈ (List.range' (k + 1) n).zip l) : p.1 ≠ k := by
+  have := (List.of_mem_zip h).1
+  rw [List.mem_range'_1] at this
+  omega
+
+theorem dupPairG_eq {α : Type} (e : α → α → Bool) (hsym : ∀ a b, e a b = e b a) (k : Nat) (l : List α) :
+    dupPairG e k l = !noDupG e l := by
+  induction l generalizing k with
+  | nil => rfl
+  | cons a t ih =>
+    unfold dupPairG
+    simp only [List.length_cons, List.range'_succ, List.zip_cons_cons, List.any_cons, noDupG, bne_self_eq_false,
+      Bool.false_and, Bool.false_or]
+    have hrest : ∀ p ∈ (List.range' (k + 1) t.length).zip t, (k != p.1) = true := by
+      intro p hp
+      have := rangeZip_geG k t.length t p hp
+      simp [bne_iff_ne, Ne.symm this]
+    have hrest' : ∀ p ∈ (List.range' (k + 1) t.length).zip t, (p.1 != k) = true := by
+      intro p hp
+      have := rangeZip_geG k t.length t p hp
+      simp [bne_iff_ne, this]
+    have h1 : ((List.range' (k + 1) t.length).zip t).any (fun q => k != q.1 && e a q.2) = t.any (e a) := by
+      rw [any_congr_mem _ _ (fun q => e a q.2) (fun q hq => by simp [hrest q hq])]
+      exact any_snd_zipG (k + 1) t (fun y => e a y)
+    have h2 : ((List.range' (k + 1) t.length).zip t).any (fun p =>
+        (p.1 != k && e p.2 a) || ((List.range' (k + 1) t.length).zip t).any fun q => p.1 != q.1 && e p.2 q.2) =
+        (t.any (e a) || dupPairG e (k + 1) t) := by
+      rw [any_congr_mem _ _ (fun p => e p.2 a || ((List.range' (k + 1) t.length).zip t).any fun q => p.1 != q.1 && e p.2 q.2)
+        (fun p hp => by simp [hrest' p hp])]
+      rw [any_or_split]
+      congr 1
+      rw [any_congr_mem _ _ (fun p => e a p.2) (fun p _ => hsym p.2 a)]
+      exact any_snd_zipG (k + 1) t (fun y => e a y)
+    rw [h1, h2, ih (k + 1)]
+    cases t.any (e a) <;> cases noDupG e t <;> rfl
+
+/-- one entry of the sensitive-hosts section as the first loop of `_validate_sensitive_hosts` tests it -/
+def entryOkSrc (subnets : List Nat) (kv : Y × Y) : Bool :=
+  match PyRt.evalAddr kv.1 with
+  | none => false
+  | some (a, b) => validHostAddr subnets a b && (match kv.2.toRat? with | some q => decide (0 < q) | none => false)
+
+theorem entryOkSrc_eq (subnets : List Nat) (kv : Y × Y) : entryOkSrc subnets kv = sensEntryOk subnets kv := by
+  obtain ⟨k, v⟩ := kv
+  unfold entryOkSrc sensEntryOk PyRt.evalAddr
+  cases k <;> simp
+  rename_i s
+  cases parsePair s <;> rfl
+
+theorem value_test (v : Y) : (v.toRat?.isSome && PyRt.ygt v 0) = (match v.toRat? with | some q => decide (0 < q) | none => false) := by
+  unfold PyRt.ygt
+  cases v.toRat? <;> simp
+
+theorem hostAddr_imp_subnet (subnets : List Nat) (a b : Int) (h : validHostAddr subnets a b = true) :
+    validSubnetId subnets a = true := by
+  unfold validHostAddr at h
+  unfold validSubnetId
+  simp only [Bool.and_eq_true, decide_eq_true_eq] at h ⊢
+  omega
+
+/-- the equivalence the duplicate test of `_validate_sensitive_hosts` uses: equal evaluated keys -/
+def eK (k1 k2 : Y) : Bool := PyRt.evalAddr k1 == PyRt.evalAddr k2
+
+theorem eK_symm (a b : Y) : eK a b = eK b a := by unfold eK; exact BEq.comm
+
+theorem noDup_keys (subnets : List Nat) (m : List (Y × Y)) (hall : m.all (entryOkSrc subnets) = true) :
+    noDupG eK (m.map (·.1)) = pairsNoDup (m.map sensAddr) := by
+  induction m with
+  | nil => rfl
+  | cons kv t ih =>
+    simp only [List.all_cons, Bool.and_eq_true] at hall
+    simp only [List.map_cons, noDupG, pairsNoDup]
+    rw [ih hall.2]
+    congr 2
+    -- membership of the head among the tail, by evaluated key resp. by address
+    rw [List.any_map, List.contains_eq_any_beq, List.any_map]
+    apply any_congr_mem
+    intro kv' hkv'
+    have h1 := hall.1
+    have h2 := List.all_eq_true.mp hall.2 kv' hkv'
+    unfold entryOkSrc at h1 h2
+    unfold eK sensAddr
+    simp only [Function.comp]
+    obtain ⟨k, v⟩ := kv
+    obtain ⟨k', v'⟩ := kv'
+    cases k with
+    | str s =>
+      cases k' with
+      | str s' =>
+        simp only [PyRt.evalAddr] at h1 h2 ⊢
+        cases hp : parsePair s with
+        | none => simp [hp] at h1
+        | some ab =>
+          cases hp' : parsePair s' with
+          | none => simp [hp'] at h2
+          | some ab' =>
+            obtain ⟨a, b⟩ := ab
+            obtain ⟨a', b'⟩ := ab'
+            simp only [hp, hp', Bool.and_eq_true] at h1 h2
+            have v1 := h1.1
+            have v2 := h2.1
+            unfold validHostAddr at v1 v2
+            simp only [Bool.and_eq_true, decide_eq_true_eq] at v1 v2
+            rw [Bool.eq_iff_iff]
+            simp only [beq_iff_eq, Option.some.injEq, Prod.mk.injEq]
+            constructor
+            · rintro ⟨rfl, rfl⟩; exact ⟨rfl, rfl⟩
+            · rintro ⟨e1, e2⟩; constructor <;> omega
+      | _ => simp [PyRt.evalAddr] at h2
+    | _ => simp [PyRt.evalAddr] at h1
+
+theorem enum_mem {α : Type} (l : List α) (p : Nat × α) (h : p ∈ PyRt.enumerate l) : p.2 ∈ l := by
+  unfold PyRt.enumerate at h
+  exact (List.of_mem_zip h).2
+
+/-- `_validate_sensitive_hosts`: at least one and at most `num_hosts` entries, every key a valid host address with a
+positive value, no address twice -/
+theorem Src_validate_sensitive (subnets : List Nat) (m : List (Y × Y)) :
+    SrcLoad.ScenarioLoader._validate_sensitive_hosts subnets (subnets.foldl (· + ·) 0 - 1) m = sensitiveOk subnets m := by
+  unfold SrcLoad.ScenarioLoader._validate_sensitive_hosts sensitiveOk
+  have hentry : sensEntryOk subnets = entryOkSrc subnets := by funext kv; rw [entryOkSrc_eq]
+  cases hm : m with
+  | nil => rfl
+  | cons kv0 t =>
+    rw [← hm]
+    have hlen0 : decide (m.length > 0) = true := by simp [hm]
+    have hne : m.isEmpty = false := by simp [hm]
+    simp only [hlen0, hne, Bool.not_true, Bool.false_eq_true, if_false, Bool.not_false, Bool.true_and]
+    by_cases hl : m.length ≤ subnets.foldl (· + ·) 0 - 1
+    · simp only [hl, decide_true, Bool.not_true, Bool.false_eq_true, if_false, Bool.true_and]
+      -- first loop
+      rw [forEach_all' m _ (entryOkSrc subnets) (by
+        intro kv _
+        obtain ⟨k, v⟩ := kv
+        split
+        · rename_i hk
+          simp [entryOkSrc, hk]
+        · rename_i a b hk
+          simp only [entryOkSrc, hk, Src_valid_subnet_id, Src_valid_host_address, Y.exactInt?, value_test]
+          by_cases hv : validHostAddr subnets a b = true
+          · simp only [hv, hostAddr_imp_subnet subnets a b hv, Bool.not_true, Bool.false_eq_true, if_false, Bool.true_and]
+          · simp only [Bool.not_eq_true] at hv
+            simp only [hv, Bool.not_false, if_true, Bool.false_and]
+            split <;> rfl)]
+      rw [hentry]
+      cases hall : m.all (entryOkSrc subnets)
+      · rfl
+      · simp only [if_true, Bool.true_and]
+        have hkeys : ∀ k ∈ m.map (·.1), ∃ ab, PyRt.evalAddr k = some ab := by
+          intro k hk
+          obtain ⟨kv, hkv, rfl⟩ := List.mem_map.1 hk
+          have := List.all_eq_true.mp hall kv hkv
+          unfold entryOkSrc at this
+          cases he : PyRt.evalAddr kv.1 with
+          | none => simp [he] at this
+          | some ab => exact ⟨ab, rfl⟩
+        -- second loop
+        rw [forEach_congr (PyRt.enumerate (m.map (·.1))) _
+          (fun p _ => if (PyRt.enumerate (m.map (·.1))).any (fun q => p.1 != q.1 && eK p.2 q.2) then .ret false else .next ()) ()
+          (by
+            intro p hp u
+            obtain ⟨i, k⟩ := p
+            obtain ⟨h1, hk⟩ := hkeys k (enum_mem _ _ hp)
+            simp only [hk]
+            rw [forEach_congr (PyRt.enumerate (m.map (·.1))) _
+              (fun q _ => if (i != q.1 && eK k q.2) = true then .ret false else .next ()) ()
+              (by
+                intro q hq u'
+                obtain ⟨j, n⟩ := q
+                obtain ⟨h2, hn⟩ := hkeys n (enum_mem _ _ hq)
+                simp only [hn, eK, hk]
+                by_cases hij : i = j
+                · subst hij; simp
+                · have : (i == j) = false := by simpa using hij
+                  simp only [this, Bool.false_eq_true, if_false, bne, Bool.not_false, Bool.true_and]
+                  by_cases he : h1 = h2
+                  · subst he; simp
+                  · have : (h1 == h2) = false := by simpa using he
+                    simp [this, he])]
+            rw [forEach_find]
+            cases (PyRt.enumerate (m.map (·.1))).any (fun q => i != q.1 && eK k q.2) <;> rfl)]
+        rw [forEach_find]
+        have hd := dupPairG_eq eK eK_symm 0 (m.map (·.1))
+        unfold dupPairG at hd
+        unfold PyRt.enumerate
+        rw [List.range_eq_range', hd, noDup_keys subnets m hall]
+        cases pairsNoDup (m.map sensAddr) <;> rfl
+    · simp [hl]
+
 
 end NASim
